@@ -37,7 +37,9 @@ func VerifC13RoundTrip(h *verifh.H) {
 // restart, for every order of first use in the box.
 func VerifC13Namespaces(h *verifh.H) {
 	hub := VerifNewHub(h)
-	pool := []string{"http://a/", "http://a/b#", "http://b/", "https://a/"}
+	// (the last expansion does not end in / or #: only a client's own context can introduce it, and
+	// the strict context handed to remote sinks leaves it out)
+	pool := []string{"http://a/", "http://a/b#", "http://b/", "https://a/", "http://a/q?id="}
 	n := h.Param("asserts", 3)
 	handed := map[string]string{} // expansion -> prefix as first handed out
 	restartAt := h.Choice("restartAt", n+1)
@@ -48,7 +50,12 @@ func VerifC13Namespaces(h *verifh.H) {
 		exp := pool[h.Choice("exp", len(pool))]
 		var prefix string
 		var err error
-		switch via := h.Choice("via", 3); {
+		via := h.Choice("via", 3)
+		if exp == pool[4] && via != 0 {
+			// a URI is split at its last / or #: this expansion can only be declared, not derived
+			h.Assume(false)
+		}
+		switch {
 		case via == 0:
 			prefix, err = hub.Store.NamespaceManager.AssertPrefixMappingForExpansion(exp)
 		case via == 2:
@@ -74,6 +81,13 @@ func VerifC13Namespaces(h *verifh.H) {
 			h.Assert(old == prefix, "an expansion keeps the prefix it was given :: exp="+exp+" first="+old+" now="+prefix)
 		} else {
 			handed[exp] = prefix
+		}
+		// the contexts the hub hands out (the full one and the strict one for remote sinks) are views:
+		// asking for them changes nothing
+		_ = hub.Store.GetGlobalContext(false)
+		strict := hub.Store.GetGlobalContext(true)
+		for p, e := range strict.Namespaces {
+			h.Assert(strings.HasSuffix(e, "/") || strings.HasSuffix(e, "#"), "the strict context lists only expansions ending in / or # :: "+p+"="+e)
 		}
 		// one-to-one at every point
 		seen := map[string]string{}
